@@ -256,6 +256,15 @@ where
 
                 if di == 0 {
                     self.vmp_apply_dft_to_dft(&mut res_dft, &a_dft, &ggsw.data, 0, scratch_2);
+                    // The limbs skipped at di = 0 are accumulated into for di > 0: start them from zero
+                    // (res_dft may come from scratch and hold anything).
+                    let written: usize = res_dft.size();
+                    res_dft.set_size(ggsw.size());
+                    for col in 0..cols {
+                        for j in written..ggsw.size() {
+                            poulpy_hal::layouts::ZnxZero::zero_at(&mut res_dft, col, j);
+                        }
+                    }
                 } else {
                     // Overwrite tmp with shifted product, then fold into res_dft.
                     res_dft_tmp.set_size(res_dft.size());
